@@ -26,7 +26,9 @@ CHECK = {
              "navigated. For families file, row, arr and legacy the text is also written to "
              "<tmp>/geo.v1.json-like.org.json and OrangeParams(\"....org.json\") and "
              "OrangeParams(\"....gdml\") (documented fallback to .org.json without Geant4) must navigate "
-             "identically to OrangeParams(input) on the small ray lattice. non-trivial = a distinct "
+             "identically to OrangeParams(input) on the small ray lattice, and so must a plain <tmp>/plain.v2.json "
+             "name; the written text must carry _format ORANGE, an integer _version and _units == native; "
+             "patched legacy texts: _units native / foreign (must throw), _format 'orange', no label-list keys. non-trivial = a distinct "
              "structure class (set of structural tags: surface types, transform types, z-orders, flags, "
              "bbox kinds, label kinds, depth, array shape, leaf/placement)."),
     "assumptions": [
